@@ -661,6 +661,20 @@ def effectiveOnDup (kw pk : Option OnDupArg) : OnDupArg :=
     | some a => a
     | Option.none => .absent
 
+/-- Several builders constructed one after the other, all handed ONE caller-owned `parser_kwargs` dictionary (`pk` =
+    its `on_duplicate_attribute` entry, if any) and each its own keyword (`kws`). The constructor works on a copy
+    (`parser_kwargs = dict(parser_kwargs or {})`, _htmlparser.py:383 as repaired by
+    fixes/C17-parser-kwargs-dict-shared.diff), so every builder's setting is what ITS arguments say. -/
+def buildersSharing (pk : Option OnDupArg) (kws : List (Option OnDupArg)) : List OnDupArg :=
+  kws.map fun kw => effectiveOnDup kw pk
+
+/-- the unrepaired constructor (`parser_kwargs = parser_kwargs or {}` followed by `parser_kwargs.update(…)`) wrote a
+    passed keyword into the caller's dictionary, where the next builder found it -/
+def buildersSharingOld : Option OnDupArg → List (Option OnDupArg) → List OnDupArg
+  | _, [] => []
+  | pk, kw :: rest =>
+    effectiveOnDup kw pk :: buildersSharingOld (match kw with | some a => some a | Option.none => pk) rest
+
 def hasDupKey : List PStr → Bool
   | [] => false
   | k :: ks => ks.contains k || hasDupKey ks
